@@ -44,13 +44,15 @@ def base_docs():
                              S("s2", "other")], author="me", version="1"),
         "warnings": docs.doc_of([S("s", "n.s.", props=[P("p", ["x"], "string", val_cardinality={"tuple": [2, None]})],
                                    sec_cardinality={"tuple": [1, None]})]),
+        # many warnings ahead of whatever error an invalidity knob adds (25 string Properties that look like numbers)
+        "noisy": docs.doc_of([S("s", props=[P("n%02d" % i, [str(i)], "string") for i in range(25)])]),
     }
 
 
 INVALID = ["none", "sec-type-None", "sec-type-empty", "nested-sec-type-None", "dup-id-sections", "dup-id-properties",
            "dup-id-doc-section", "dup-id-nested-section-vs-later-branch", "dup-id-properties-in-two-branches",
            "dup-id-nested-property-vs-later-section", "dup-name-sections", "dup-name-properties"]
-NATURAL = ["none", "xml-bad-char-in-value", "xml-bad-char-in-attribute", "xml-bad-char-in-name",
+NATURAL = ["none", "xml-bad-char-in-value", "xml-bad-char-in-attribute", "xml-bad-char-in-name", "lone-surrogate-in-value",
            "json-unencodable-doc-attr", "json-unencodable-sec-attr", "json-unencodable-prop-attr"]
 
 
@@ -102,6 +104,9 @@ def build_doc(name, invalid, cause):
         s0.definition = BAD
     elif cause == "xml-bad-char-in-name":
         odml.Section(BAD, type="t", parent=s0)
+    elif cause == "lone-surrogate-in-value":
+        # text no encoding can hold (an undecodable file name from os.fsdecode, say): fails while the text is encoded
+        odml.Property("surr", values=["ok", "bad\udcff"], dtype="string", parent=s0)
     elif cause == "json-unencodable-doc-attr":
         d.author = {1, 2}
     elif cause == "json-unencodable-sec-attr":
@@ -186,15 +191,19 @@ def gen_cases(tier):
     for site in fault.SITE_NAMES:
         causes.append(("inject", site, "first"))
         causes.append(("inject", site, "last"))
-    for docname in ("plain", "deep", "warnings"):
+    for docname in ("plain", "deep", "warnings", "noisy"):
         for invalid in INVALID:
             if invalid != "none" and docname == "warnings":
                 continue
             for ckind, cause, nth in causes:
                 if docname != "plain" and ckind == "natural" and cause != "none" and invalid != "none":
                     continue
+                if docname == "noisy" and (ckind != "natural" or cause != "none"):
+                    continue          # the noisy document is there for the invalidity knobs
                 for entry, fmt, opts in ents:
                     for target in ("absent", "present", "no-extension-absent", "no-extension-present"):
+                        if docname == "noisy" and target.startswith("no-extension"):
+                            continue
                         if tier == "quick" and target.startswith("no-extension") and (ckind == "inject" and nth == "last"):
                             continue
                         cases.append({"doc": docname, "invalid": invalid, "cause_kind": ckind, "cause": cause, "nth": nth,
@@ -341,7 +350,7 @@ def check(tier):
     ])
     cases = gen_cases(tier)
     run.bounds = {"injected_faults_per_run": 1, "call_sites": len(fault.SITE_NAMES), "entries_x_formats": len(entries()),
-                  "documents": 3, "invalidity_kinds": len(INVALID) - 1, "natural_causes": len(NATURAL) - 1}
+                  "documents": 4, "invalidity_kinds": len(INVALID) - 1, "natural_causes": len(NATURAL) - 1}
     run.layer("product", cases=len(cases))
     par.run_cases(run, "checks.c07", cases, nchunks=par.JOBS * 16)
     return run.finish(reproduce=lambda f: replay(f))
